@@ -100,6 +100,32 @@ def buffer_end_locals(fn):
     return out
 
 
+def remaining_views(fn, ends, ptr_canon):
+    """string_view locals V initialised as {(cast) ptr, end - ptr}: V.size() is the number of bytes from the
+    position V.data() to the end of the payload, and only shrinks (remove_prefix / remove_suffix)."""
+    out = set()
+    for n in fn.nodes():
+        if n.get("k") != "decl":
+            continue
+        for v in n.get("vars", []):
+            init = v.get("init")
+            if not isinstance(init, dict) or "basic_string_view" not in (v["t"].get("s") or ""):
+                continue
+            c = strip_all_casts(init)
+            while c.get("k") == "construct" and len(c.get("args", [])) == 1:
+                c = strip_all_casts(c["args"][0])
+            if c.get("k") in ("construct", "initlist") and len(c.get("args", c.get("inits", []))) == 2:
+                a0, a1 = (c.get("args") or c.get("inits"))
+                l = strip_all_casts(a1)
+                if canon(strip_all_casts(a0)) == ptr_canon and l.get("k") == "bin" and l.get("op") == "-" and \
+                        strip_all_casts(l["l"]).get("decl") in ends and canon(strip_all_casts(l["r"])) == ptr_canon:
+                    # other writers than shrinking would break the reading
+                    others = [k for d, k, _ in facts.writes_of(fn) if d == v["decl"] and k not in ("call:remove_prefix", "call:remove_suffix")]
+                    if not others:
+                        out.add(v["decl"])
+    return out
+
+
 def remaining_counters(fn, ends, ptr_canon, before_id=None):
     """Locals R kept equal to (end - ptr): initialised as `end - ptr` and decreased by k in the
     same block right after/before every `ptr += k` (no other writes to R or ptr)."""
@@ -145,6 +171,17 @@ def remaining_counters(fn, ends, ptr_canon, before_id=None):
 def remaining_fact(fs, ends, ptr_canon, need_const=None, need_canon=None, minus=0, fn=None, at_id=None):
     """A live fact `(end - ptr) [- minus] >= need` (also through a local kept equal to end - ptr)."""
     rc = remaining_counters(fn, ends, ptr_canon, at_id) if fn is not None else set()
+    rv = remaining_views(fn, ends, ptr_canon) if fn is not None and minus == 0 else set()
+    for a in fs:
+        if a[0] == "cmp" and rv:
+            for x, y, op in ((a[4], a[5], a[2]), (a[5], a[4], facts._flip_op(a[2]))):
+                xs = strip_all_casts(x)
+                if op in (">=", ">") and xs.get("k") == "call" and (xs.get("callee") or {}).get("nm") in ("size", "length") and \
+                        strip_all_casts(xs.get("obj", {})).get("decl") in rv:
+                    # V.size() <= end - ptr at all times (V only shrinks), so a bound on V.size() bounds the bytes at ptr
+                    yv = const_value(y)
+                    if need_const is not None and yv is not None and yv + (1 if op == ">" else 0) >= need_const:
+                        return a
     for a in fs:
         if a[0] == "cmp" and rc:
             for x, y, op in ((a[4], a[5], a[2]), (a[5], a[4], facts._flip_op(a[2]))):
@@ -403,6 +440,29 @@ def check_walker(res, fb, f, cls, hsize, K):
     """Raw accesses at data-dependent positions inside accessor f."""
     ends = buffer_end_locals(f)
     mf = None
+    # shrinking a view by more than its size is undefined: remove_prefix(n) / remove_suffix(n) need size() >= n
+    for c in f.calls():
+        if (c.get("callee") or {}).get("nm") in ("remove_prefix", "remove_suffix") and "basic_string_view" in (callee_name(c) or "") and c.get("args"):
+            o = strip_all_casts(c.get("obj", {}))
+            if o.get("k") != "ref" or o.get("dk") != "local":
+                continue
+            if mf is None:
+                mf = MustFacts(f)
+            nv, ncan = const_value(c["args"][0]), canon(strip_all_casts(c["args"][0]))
+            ok = False
+            for a in mf.at(c):
+                if a[0] != "cmp":
+                    continue
+                for x, y, op in ((a[4], a[5], a[2]), (a[5], a[4], facts._flip_op(a[2]))):
+                    xs = strip_all_casts(x)
+                    if op in (">=", ">") and xs.get("k") == "call" and (xs.get("callee") or {}).get("nm") in ("size", "length") and \
+                            strip_all_casts(xs.get("obj", {})).get("decl") == o["decl"]:
+                        yv = const_value(y)
+                        if (nv is not None and yv is not None and yv + (1 if op == ">" else 0) >= nv) or canon(strip_all_casts(y)) == ncan:
+                            ok = True
+            res.check(ok, "C03-R2c", "%s::%s:shrink@%s" % (cls, f.name.split("::")[-1], (c.get("loc") or "").split(":", 1)[-1]), c.get("loc"),
+                      "view shrunk by `%s` under size() >= that" % ncan[:40],
+                      "%s::%s shrinks a view by `%s` without a live `size() >= %s`: undefined for short payloads" % (cls, f.name.split("::")[-1], ncan[:40], ncan[:40]))
     for x in f.nodes():
         kind = None
         if x.get("k") == "un" and x.get("op") == "*":
@@ -433,6 +493,14 @@ def check_walker(res, fb, f, cls, hsize, K):
                       "%s::%s reads %d bytes at a position taken from the payload (`%s`) without comparing the remaining bytes with the end of the "
                       "payload: a payload accepted by isValidPayload (>= %d bytes) can make it read beyond its buffer" % (cls, f.name.split("::")[-1], width, pc, K))
         else:
+            le = strip_all_casts(lenexpr)
+            if le.get("k") == "bin" and le.get("op") == "-" and strip_all_casts(le["l"]).get("decl") in ends and canon(strip_all_casts(le["r"])) == pc:
+                # a view of everything from ptr to the end: in bounds whenever end >= ptr
+                ge = any(a[0] == "cmp" and ((a[2] in (">=",) and strip_all_casts(a[4]).get("decl") in ends and canon(strip_all_casts(a[5])) == pc) or
+                                            (a[2] in ("<=",) and canon(strip_all_casts(a[4])) == pc and strip_all_casts(a[5]).get("decl") in ends)) for a in fs)
+                res.check(ge, "C03-R2c", key, x.get("loc"), "view of all remaining bytes (end - ptr) under end >= ptr",
+                          "%s::%s builds a view of `end - ptr` bytes without `end >= ptr` being established" % (cls, f.name.split("::")[-1]))
+                continue
             ok = remaining_fact(fs, ends, pc, need_canon=canon(lenexpr), fn=f, at_id=x["id"])
             res.check(ok is not None, "C03-R2c", key, x.get("loc"), "view of `%s` bytes guarded by (end - ptr) >= %s" % (canon(lenexpr), canon(lenexpr)),
                       "%s::%s hands out a view of `%s` bytes at `%s` without comparing that length with the remaining bytes of the payload" %
